@@ -918,7 +918,7 @@ class Check(PropertyCheck):
             return k == 'exclude_lost' and bool(v.get('excluded')) and bool(v.get('any_comp'))
         if fid == 'F10':
             return k == 'geometry_changed' and v.get('cls') in ('polygon', 'regularPolygon') and v.get('sig') == 'zero_padded'
-        if fid == 'F25':
+        if fid == 'F121':
             return k == 'file_write_failed' and v.get('exc') == 'TypeError' and bool(v.get('partial_comp'))
         return False
 
@@ -946,7 +946,7 @@ class Check(PropertyCheck):
         if n and len(set(n)) > 1:
             tags.append('F10')
         if any(c is not None for c in comps) and any(c is None for c in comps):
-            tags.append('F25')
+            tags.append('F121')
         skipped = len(case['regions']) - len(specs)
         pad = 'padded' if len({s['cls'] for s in specs}) > 1 else 'uniform'
         return 'list/' + ('+'.join(tags) if tags else 'clean') + '/' + pad + ('/skips' if skipped else '')
